@@ -65,6 +65,16 @@ class OnlyCustom(Feature):
         self.sink.append(("E", id(event), event.time, None))
 
 
+class CustomStepsQuotes(OnlyCustom):
+    """Third observer: a SUBCLASS of the single-type observer that subscribes to two more event types."""
+
+    def process_EventStep(self, event):
+        self.sink.append(("Step", id(event), event.time, None))
+
+    def process_EventNBBO(self, event):
+        self.sink.append(("Q", id(event), event.time, None))
+
+
 A = ETF("A")
 B = ETF("B")
 
